@@ -4,13 +4,15 @@ open TxV TxV.Proto TxV.Testbench
 /-!
 protocol (one output line per input line)
 
-  cfg w=8 fn=<ka>,<kb>,<kc>,<ne> prog=k,c5,t3,k,c7        → ok | bad-cfg
-      w    data width;  fn  the mocked function: ret = (ka*arg + kb*len(log) + kc*sum(log)) mod 2^w,
-      registered effects = ne payloads arg, arg+1, … (mod 2^w);  prog  the testbench process
+  cfg w=8 fn=<ka>,<kb>,<kc>,<ne>,<kn> prog=k,c5,t3,k,c7        → ok | bad-cfg
+      w    data width;  fn  the mocked function, reading the Python-side state x of the cycle (`x=` below):
+      returns None if kn > 0 and (arg + len(log)) mod kn = 0, else ret = (ka*arg + kb*len(log) + kc*sum(log) + x) mod 2^w;
+      registered effects = ne payloads arg+x, arg+x+1, … (mod 2^w);  prog  the testbench process
       (c<d> = call, t<d> = call_try, k = tick; `-` = no process: raw mode)
-  cyc p=1,0,1 e=0 men=1 val=12          three phases (rdy only)            (command mode)
-  cyc p=1x1x5,0x1x7,1x0x7 e=1 men=0 val=3     phases rdy x en x data_in    (raw mode)
-      e = the mock re-enables after phase e, men = enable(), val = the design's `val` input
+  cyc p=1,0,1 e=0 men=1 val=12 x=3      three phases (rdy only)            (command mode)
+  cyc p=1x1x5,0x1x7,1x0x7 e=1 men=0 val=3 x=0     phases rdy x en x data_in    (raw mode)
+      e = the mock re-enables after phase e, men = enable(), val = the design's `val` input,
+      x = the Python-side state read by the mocked function when the mock re-enables (and until the edge)
       → en=1 done=1 ret=17 app=5,6 evt=c:17
         en   wrapper adapter.en at the edge        done  adapter.done at the edge (= method ran)
         ret  adapter.data_out if done else -       app   payloads of the mock effects applied after this edge
@@ -26,17 +28,20 @@ protocol (one output line per input line)
 -/
 
 structure DState where
-  f : MockFn
+  f : Nat → MockFn
   s : Sys
   ok : Bool
   trig : Option TCaller := none     -- `mode=trig`
   w : Nat := 1
 
-def mkFn (w ka kb kc ne : Nat) : MockFn :=
-  { ret := fun log arg => (ka * arg + kb * log.length + kc * log.sum) % 2 ^ w,
-    effs := fun _ arg => (List.range ne).map fun i => (arg + i) % 2 ^ w }
+def mkFn (w ka kb kc ne kn x : Nat) : MockFn :=
+  MockFn.ofPy
+    (fun log arg =>
+      if kn > 0 && (arg + log.length) % kn == 0 then none
+      else some ((ka * arg + kb * log.length + kc * log.sum + x) % 2 ^ w))
+    (fun _ arg => (List.range ne).map fun i => (arg + x + i) % 2 ^ w)
 
-def DState.empty : DState := { f := mkFn 1 0 0 0 0, s := Sys.init 1 [], ok := false }
+def DState.empty : DState := { f := mkFn 1 0 0 0 0 0, s := Sys.init 1 [], ok := false }
 
 def parseCmd (s : String) : Option Cmd :=
   if s == "k" then some .tick
@@ -61,7 +66,7 @@ def parseCfg (t : List String) : Option DState := do
   let w ← nat? t "w"
   let prog ← parseProg (← kv? t "prog")
   match natList (← kv? t "fn") with
-  | [ka, kb, kc, ne] => pure { f := mkFn w ka kb kc ne, s := Sys.init w prog, ok := true }
+  | [ka, kb, kc, ne, kn] => pure { f := mkFn w ka kb kc ne kn, s := Sys.init w prog, ok := true }
   | _ => none
 
 def parseCyc (t : List String) : Option CycIn := do
@@ -69,7 +74,8 @@ def parseCyc (t : List String) : Option CycIn := do
   let e ← nat? t "e"
   let men ← parseBit (← kv? t "men")
   let val ← nat? t "val"
-  pure { phases := ps, e := e, men := men, val := val }
+  let x ← nat? t "x"
+  pure { phases := ps, e := e, men := men, val := val, x := x }
 
 def parseEntry (s : String) : Option Entry :=
   if s == "v" then some .value
@@ -143,7 +149,7 @@ def stepLine (st : DState) (line : String) : DState × String :=
     match parseCyc t with
     | none => (st, "bad-op")
     | some i =>
-      let (s', o) := st.s.step st.f i
+      let (s', o) := st.s.step (st.f i.x) i
       ({ st with s := s' },
        s!"en={showBool o.en} done={showBool o.done} ret={showOpt o.ret} app={showList o.applied} evt={showEvt o.evt}")
   | _ => (st, "bad-op")
